@@ -324,7 +324,7 @@ def _fit(r, case):
         # sampling: schema, no NaN; and using the sampler must not change what get_likelihood answers
         probe = probe_rows(d)[1][None, :]
         before = zoo_attempt(v.get_likelihood, probe.copy())
-        for n in (1, 4):
+        for n in (0, 1, 4):
             try:
                 s = v.sample(n)
             except Exception as e:
